@@ -89,17 +89,48 @@ package topic
 
 // ---------------------------------------------------------------- level splitting
 //
+// segf / restf: the first level of a topic string and what follows it (the
+// sentinel topicEnd once no level is left); sidx is strings.Index.
+//@ spec func segf(s string, sep string) string = sidx(s, sep) >= 0 ? s[:sidx(s, sep)] : s
+//@ spec func restf(s string, sep string) string = sidx(s, sep) >= 0 ? s[sidx(s, sep)+1:] : topicEnd
 //@ func topicShorten(topic string, separator string) (r string)
 //@   requires [sep] len(separator) >= 1
+//@   ensures [value] r == restf(topic, separator)
 //@   modifies nothing
 //@ func topicSegment(topic string, separator string) (r string)
 //@   requires [sep] len(separator) >= 1
 //@   ensures [len] len(r) <= len(topic)
+//@   ensures [value] r == segf(topic, separator)
 //@   modifies nothing
+
+// ---------------------------------------------------------------- the matching relation (MQTT 3.1.1 section 4.7)
+//
+// Lv is the type of level lists. lv(r) are the levels of the string r as the
+// walkers consume it (topicEnd: no level left; "" is one empty level; a
+// leading or trailing separator yields an empty level).
+//
+// M(t, f, n): the filter with levels f matches the name with levels n:
+//   - the empty filter matches only the empty name,
+//   - '#' must be the last level and matches any rest, including none
+//     (the parent level),
+//   - '+' matches exactly one level, whatever it is (also the empty level),
+//   - any other level must equal the name's next level byte for byte.
+// Both directions are specified against this one relation: Match looks up
+// M(stored filter, lv(name)), Search looks up M(lv(filter), stored name), so
+// a filter matches a name in one direction iff it does in the other.
+// okf(t, f): '#' occurs only as the last level of f.
+//
+// at(n, q) is the node reached from n along the levels q (nil if there is
+// none); stored(n, q): something is stored under the path q below n.
+//@ spec func lv(r string, sep string) Lv = r == topicEnd ? lnil() : lcons(segf(r, sep), lv(restf(r, sep), sep))
+//@ spec pred M(t *Tree, f Lv, n Lv) = isnil(f) ? isnil(n) : (lhd(f) == t.wildcardSome ? isnil(ltl(f)) : (!isnil(n) && (lhd(f) == t.wildcardOne || lhd(f) == lhd(n)) && M(t, ltl(f), ltl(n))))
+//@ spec pred okf(t *Tree, f Lv) = isnil(f) || (lhd(f) == t.wildcardSome ? isnil(ltl(f)) : okf(t, ltl(f)))
+//@ spec func at(n *node, q Lv) *node = isnil(q) ? n : (n != nil && n.children != nil && has(n.children, lhd(q)) ? at(n.children[lhd(q)], ltl(q)) : nil)
+//@ spec pred stored(n *node, q Lv) = at(n, q) != nil && len(at(n, q).values) > 0
 
 // ---------------------------------------------------------------- recursive walkers (called with the mutex held)
 //
-//@ spec pred std(t *Tree) = len(t.separator) >= 1
+//@ spec pred std(t *Tree) = len(t.separator) >= 1 && t.wildcardOne != t.wildcardSome
 //
 //@ func (t *Tree) add(value interface{}, topic string, node *node)
 //@   requires [locked] held[t.mutex] == 2 && std(t)
@@ -146,16 +177,43 @@ package topic
 //@   requires [locked] held[t.mutex] >= 1 && std(t)
 //@   requires [node] isnode[node] && wf() && fn != nil
 //@   ensures [wf] wf()
+//@   ensures [stop-mono] old(anystop) ==> anystop
+//@   ghostresult visited map[Lv]bool
+//@   at call 1 fn bind c1
+//@   at call 2 fn bind c2
+//@   at call 1 match bind m1
+//@   at call 2 match bind m2
+//@   ghostdef visited[q] := (c1 && q == lcons(t.wildcardSome, lnil())) || (c2 && isnil(q)) || (m1 && !isnil(q) && lhd(q) == t.wildcardOne && m1_visited[ltl(q)]) || (m2 && !isnil(q) && lhd(q) == segf(topic, t.separator) && m2_visited[ltl(q)])
+//@   ensures [sound] forall q Lv {visited[q]} :: visited[q] ==> stored(node, q) && M(t, q, lv(topic, t.separator))
+//@   ensures [complete] !anystop ==> forall q Lv {stored(node, q)} :: stored(node, q) && M(t, q, lv(topic, t.separator)) ==> visited[q]
 //@   calls fn
 //@   modifies anystop
 //@ func (t *Tree) search(topic string, node *node, fn func([]interface{}) bool)
 //@   requires [locked] held[t.mutex] >= 1 && std(t)
 //@   requires [node] isnode[node] && wf() && fn != nil
 //@   ensures [wf] wf()
+//@   ensures [stop-mono] old(anystop) ==> anystop
+//@   ghostresult visited map[Lv]bool
+//@   ghostlocal acc1 map[Lv]bool
+//@   ghostlocal acc2 map[Lv]bool
+//@   at call 1 fn bind c1
+//@   at call 2 fn bind c2
+//@   at call 1 search bind s1
+//@   at call 1 search ghost acc1[q] := acc1[q] || (!isnil(q) && lhd(q) == rangekey && s1_visited[ltl(q)])
+//@   at call 2 search bind s2
+//@   at call 2 search ghost acc2[q] := acc2[q] || (!isnil(q) && lhd(q) == rangekey && s2_visited[ltl(q)])
+//@   at call 3 search bind s3
+//@   ghostdef visited[q] := ((c1 || c2) && isnil(q)) || acc1[q] || acc2[q] || (s3 && !isnil(q) && lhd(q) == segf(topic, t.separator) && s3_visited[ltl(q)])
+//@   ensures [sound] okf(t, lv(topic, t.separator)) ==> forall q Lv {visited[q]} :: visited[q] ==> stored(node, q) && M(t, lv(topic, t.separator), q)
+//@   ensures [complete] okf(t, lv(topic, t.separator)) && !anystop ==> forall q Lv {stored(node, q)} :: stored(node, q) && M(t, lv(topic, t.separator), q) ==> visited[q]
 //@   calls fn
 //@   modifies anystop
-//@   loop 1 invariant [wf] wf() && isnode[node]
-//@   loop 2 invariant [wf] wf() && isnode[node]
+//@   loop 1 invariant [wf] wf() && isnode[node] && (old(anystop) ==> anystop)
+//@   loop 1 invariant [sound] okf(t, lv(topic, t.separator)) ==> forall q Lv {acc1[q]} :: acc1[q] ==> stored(node, q) && M(t, lv(topic, t.separator), q)
+//@   loop 1 invariant [complete] okf(t, lv(topic, t.separator)) && !anystop ==> forall q Lv {stored(node, q)} :: !isnil(q) && visited[lhd(q)] && stored(node, q) && M(t, lv(topic, t.separator), q) ==> acc1[q]
+//@   loop 2 invariant [wf] wf() && isnode[node] && (old(anystop) ==> anystop)
+//@   loop 2 invariant [sound] okf(t, lv(topic, t.separator)) ==> forall q Lv {acc2[q]} :: acc2[q] ==> stored(node, q) && M(t, lv(topic, t.separator), q)
+//@   loop 2 invariant [complete] okf(t, lv(topic, t.separator)) && !anystop ==> forall q Lv {stored(node, q)} :: !isnil(q) && visited[lhd(q)] && stored(node, q) && M(t, lv(topic, t.separator), q) ==> acc2[q]
 
 // ---------------------------------------------------------------- public methods: one critical section each
 //
